@@ -27,7 +27,8 @@ struct Exp {                       // one expected delivery
   std::vector<std::string> error_any_of;   // if non-empty: one of these
   bool ignore_body = false;        // e.g. human-readable error text
   bool body_is_name_set = false;   // body = one 'as' compared as a set (ListNames)
-  bool last = false;               // must arrive after every other required item of its group
+  bool last = false;               // a reply: must arrive after every `pre` item of its group
+  bool pre = false;                // a signal addressed to the requester: must precede its reply
   bool optional = false;           // documents allow it to be present or absent
   std::string what;                // for reports
   std::string prop;                // property whose statement this expectation comes from (C03, C04, ...)
@@ -78,11 +79,14 @@ class Model {
   std::vector<std::string> uniq;                        // bound unique names ("" = not observed yet)
   std::map<std::string, std::vector<QEntry>> names;     // well-known names: queue, head = primary owner
   std::vector<std::deque<Group>> exp;                   // per recipient
+  std::vector<std::vector<Exp>> floating;               // per recipient: must arrive by the next quiescent point, position free
   std::vector<PendingReply> pending;
   Limits lim;
   uint64_t event = 0;
   int64_t now_us = 0;
   std::map<std::string, uint64_t> probes;               // rare-branch counters
+  std::set<std::string> known;                          // ids of listed known findings (known_findings.json, status=finding)
+  mutable std::map<std::string, uint64_t> finding_hits; // how often each listed finding was observed in this run
   std::vector<Choice> open_choices;                     // to be resolved by the harness right after the event
   std::set<std::string> activatable;                    // names with a service file (C19)
 
@@ -109,8 +113,10 @@ class Model {
 
  private:
   void emit(int recipient, Exp e);
+  void emit_floating(int recipient, Exp e);
   void emit_broadcast_from_bus(const wire::Msg &sig);
   void route(int c, const wire::Msg &m, int addressed);
+  void route_matches(int sender, const wire::Msg &m, int addressed, bool requested);
   void driver(int c, const wire::Msg &m);
   void reply_ok(int c, const wire::Msg &call, std::vector<wire::Value> body, bool name_set = false);
   void reply_err(int c, const wire::Msg &call, const std::string &name, std::vector<std::string> any_of = {});
